@@ -192,6 +192,16 @@ def sympy_to_python_fn(
         .replace(sympy.csch, lambda arg: 1 / sympy.sinh(arg))
         .replace(sympy.coth, lambda arg: sympy.cosh(arg) / sympy.sinh(arg))
     )
+    # The same holds for their inverses, which are rewritten in terms of log: one of
+    # them inside another comes out with complex intermediate values
+    expr = (
+        expr.replace(sympy.asech, lambda arg: sympy.acosh(1 / arg))
+        .replace(sympy.acsch, lambda arg: sympy.asinh(1 / arg))
+        .replace(sympy.acoth, lambda arg: sympy.atanh(1 / arg))
+        .replace(sympy.asec, lambda arg: sympy.acos(1 / arg))
+        .replace(sympy.acsc, lambda arg: sympy.asin(1 / arg))
+        .replace(sympy.acot, lambda arg: sympy.atan(1 / arg))
+    )
 
     return f"""def {fn_name}({fn_args}) -> float:
     return {pycode(expr, fully_qualified_modules=True, full_prec=False)}
